@@ -13,6 +13,22 @@ DEV_NOTE = ("Trusted: TLC, the transcription of the device rules into Devices.tl
             "built per behaviour and every terminal is read after every action); timestamps are ranks mapped monotonically to i64; "
             "numeric agreement within 2^-16 of the largest magnitude in the behaviour.")
 CLAIMS = {
+ "C02": dict(design_ref="DESIGN.md section 4, C02",
+    text="Combinators.tla writes the 18 stateless getters as outcome functions from their documentation; TLC enumerates every input assignment "
+         "within the quantifier (all of {Err1,Err2,Absent,Some(t)}^arity, arities 1..5, reduced outcomes to arity 8), checks table = strong Kleene "
+         "logic, De Morgan duality, Sum2/Product2 = n-ary, and the slot-level model of the n-ary fold on each case, and prints the predicted "
+         "outcome; each case is replayed on the real stream wired to scripted getters (get() twice, value bits compared with a plain-f32 "
+         "evaluation of the predicted term).",
+    note="Trusted: TLC, the transcription of the documentation into Combinators.tla, the harness's plain-f32 term evaluator, the host's f32::powf.",
+    technique=TECH),
+ "C03": dict(design_ref="DESIGN.md section 4, C03",
+    text="Datum.tla gives the timestamp rule of every Datum<T> operator form, the replace helpers and latest(); TLC checks StepLaw (result time "
+         "is an operand time and not older than any; replace iff strictly newer) on every form x rank pair and on random chains, and the "
+         "stream-, terminal- and device-level timestamps come from Combinators.tla and Devices.tla; all are replayed on the real code under "
+         "monotone rank->i64 maps that include i64::MIN, MIN+1, -1, 0 and i64::MAX (presence and timestamps compared).",
+    note="Trusted: TLC, the three specifications, the replay harnesses; values are compared only for the Datum operators (against the payload "
+         "type's own operator).",
+    technique=TECH),
  "C08": dict(design_ref="DESIGN.md section 4, C08",
     text="TLC checks on Devices.tla, on every update step of every explored history, that the written states satisfy the device constraint, "
          "satisfy the normal equations of the least-squares projection of the reads (exact rationals), are unchanged when the reads already "
